@@ -23,6 +23,8 @@ gen('MC_Log_crashread_quick.cfg', K=1, P='{"p1","p2","p3"}', sh='ShOk1', faults=
 gen('MC_Log_shapes_quick.cfg', sh='ShAll', faults=0, crashes=1)
 gen('MC_Log_thorough.cfg', sh='ShOk12')
 gen('MC_Log_3p_thorough.cfg', P='{"p1","p2","p3"}', K=1, faults=2, crashes=1)
+gen('MC_Log_k3_thorough.cfg', K=3, faults=1, crashes=1)
+gen('MC_Log_readfault_thorough.cfg', sh='ShOk12', faults=1, crashes=1, interval=2, mbs='{0,9,80,200}', invs=CORE + " " + READ)
 gen('MC_Log_read_thorough.cfg', sh='ShOk12', faults=0, crashes=0, interval=2, mbs='{0,9,80,200}', invs=CORE + " " + READ)
 # named deviations: each must make TLC report the stated invariant
 DEV = {
